@@ -7,10 +7,31 @@ theorem foldl_rm_removes (t : Name) (p : Path) :
   fun l st hp => foldl_removes (rmTarget false t) (fun p => [p]) (rmTarget_frame false t) p (fun x => x = p)
     (fun st x hx => hx ▸ rmTarget_removes t st x) l st ⟨p, hp, rfl⟩
 
-theorem rmTarget_rmdir (t : Name) (s : World × List Ev) (d : Path) (hnf : d ∉ s.1.files)
-    (he : hasEntry s.1 d = false) : d ∉ (rmTarget false t s d).1.dirs := by
+theorem rmTarget_links_nil (dry : Bool) (t : Name) (s : World × List Ev) (p : Path) (h : s.1.links = []) :
+    (rmTarget dry t s p).1.links = [] := by
   unfold rmTarget
-  simp only [hnf, if_false, he, Bool.false_eq_true]
+  have hl : (linkDest s.1 p).isSome = false := by simp [linkDest, h, alookup]
+  simp only [hl, Bool.false_eq_true, if_false]
+  split
+  · cases dry <;> exact h
+  · split
+    · split
+      · exact h
+      · cases dry <;> exact h
+    · exact h
+
+theorem foldl_links_nil (dry : Bool) (t : Name) : ∀ (l : List Path) (s : World × List Ev), s.1.links = [] →
+    (l.foldl (rmTarget dry t) s).1.links = [] := by
+  intro l
+  induction l with
+  | nil => intro s h; exact h
+  | cons x l ih => intro s h; simp only [List.foldl_cons]; exact ih _ (rmTarget_links_nil dry t s x h)
+
+theorem rmTarget_rmdir (t : Name) (s : World × List Ev) (d : Path) (hnf : d ∉ s.1.files)
+    (hl : s.1.links = []) (he : hasEntry s.1 d = false) : d ∉ (rmTarget false t s d).1.dirs := by
+  unfold rmTarget
+  have hl' : (linkDest s.1 d).isSome = false := by simp [linkDest, hl, alookup]
+  simp only [hnf, if_false, hl', he, Bool.false_eq_true]
   split
   · simp
   · assumption
@@ -18,7 +39,7 @@ theorem rmTarget_rmdir (t : Name) (s : World × List Ev) (d : Path) (hnf : d ∉
 /-- a target directory whose whole content are target files of the same task is removed: the files inside are
     handled first (`sortDesc` puts them before the directory), so `os.listdir` finds it empty -/
 theorem cleanTargets_rmdir (t : Name) (targets : List Path) (st : World × List Ev) (d : Path)
-    (hd : d ∈ targets) (hnf : d ∉ st.1.files)
+    (hd : d ∈ targets) (hnf : d ∉ st.1.files) (hnl : st.1.links = [])
     (hfiles : ∀ q, q ∈ st.1.files → below d q = true → q ∈ targets)
     (hdirs : ∀ q, q ∈ st.1.dirs → below d q = false) :
     d ∉ (cleanTargets false t targets st).1.dirs := by
@@ -29,7 +50,7 @@ theorem cleanTargets_rmdir (t : Name) (targets : List Path) (st : World × List 
   -- after the part of the walk before `d`, nothing is left below `d`
   have hempty : hasEntry (l1.foldl (rmTarget false t) st).1 d = false := by
     unfold hasEntry
-    rw [List.any_eq_false]
+    rw [foldl_links_nil false t l1 st hnl, List.map_nil, List.append_nil, List.any_eq_false]
     intro q hq
     simp only [List.mem_append] at hq
     rcases hq with hq | hq
@@ -51,9 +72,101 @@ theorem cleanTargets_rmdir (t : Name) (targets : List Path) (st : World × List 
       simp [this]
   have hnf1 : d ∉ (l1.foldl (rmTarget false t) st).1.files := fun h => hnf (hf1.fsub d h)
   have hstep : d ∉ (rmTarget false t (l1.foldl (rmTarget false t) st) d).1.dirs :=
-    rmTarget_rmdir t _ d hnf1 hempty
+    rmTarget_rmdir t _ d hnf1 (foldl_links_nil false t l1 st hnl) hempty
   have hf2 := foldl_frame (rmTarget false t) (fun p => [p]) (rmTarget_frame false t) l2
     (rmTarget false t (l1.foldl (rmTarget false t) st) d)
   exact fun h => hstep (hf2.dsub d h)
+
+/-! ### without symbolic links the command never reaches the `os.rmdir`-on-a-link crash -/
+/-- no symbolic link in the world, no crash event so far -/
+def NoLinkNoCrash (st : World × List Ev) : Prop := st.1.links = [] ∧ ∀ e, e ∈ st.2 → isCrash e = false
+
+theorem rmTarget_nlnc (dry : Bool) (t : Name) (st : World × List Ev) (p : Path) (h : NoLinkNoCrash st) :
+    NoLinkNoCrash (rmTarget dry t st p) := by
+  refine ⟨rmTarget_links_nil dry t st p h.1, ?_⟩
+  unfold rmTarget
+  have hl : (linkDest st.1 p).isSome = false := by simp [linkDest, h.1, alookup]
+  simp only [hl, Bool.false_eq_true, if_false]
+  intro e he
+  split at he
+  · simp only [List.mem_append, List.mem_singleton] at he
+    rcases he with he | he
+    · exact h.2 e he
+    · rw [he]; rfl
+  · split at he
+    · split at he <;>
+      · simp only [List.mem_append, List.mem_singleton] at he
+        rcases he with he | he
+        · exact h.2 e he
+        · rw [he]; rfl
+    · exact h.2 e he
+
+theorem applyEff_links (e : Option Eff) (w : World) : (applyEff e w).links = w.links := by
+  cases e with
+  | none => rfl
+  | some e =>
+    cases e with
+    | rm p => rfl
+    | mk p => simp only [applyEff]; split <;> rfl
+
+theorem runAct_nlnc (dry : Bool) (t : Name) (k : Nat) (a : Act) (st : World × List Ev) (h : NoLinkNoCrash st) :
+    NoLinkNoCrash (runAct dry t k a st) := by
+  unfold runAct
+  split
+  · refine ⟨?_, ?_⟩
+    · cases dry
+      · simp only [Bool.false_eq_true, if_false]; rw [applyEff_links]; exact h.1
+      · exact h.1
+    · intro e he
+      simp only [List.mem_append, List.mem_cons, List.not_mem_nil, or_false] at he
+      rcases he with he | he | he
+      · exact h.2 e he
+      · rw [he]; rfl
+      · rw [he]; split <;> rfl
+  · refine ⟨h.1, ?_⟩
+    intro e he
+    simp only [List.mem_append, List.mem_singleton] at he
+    rcases he with he | he
+    · exact h.2 e he
+    · rw [he]; rfl
+
+theorem runActs_nlnc (dry : Bool) (t : Name) : ∀ (as : List Act) (k : Nat) (st : World × List Ev),
+    NoLinkNoCrash st → NoLinkNoCrash (runActs dry t k as st) := by
+  intro as
+  induction as with
+  | nil => intro k st h; exact h
+  | cons a as ih => intro k st h; simp only [runActs]; exact ih _ _ (runAct_nlnc dry t k a st h)
+
+theorem foldl_nlnc {γ : Type} (g : World × List Ev → γ → World × List Ev)
+    (hg : ∀ st x, NoLinkNoCrash st → NoLinkNoCrash (g st x)) :
+    ∀ (l : List γ) (st : World × List Ev), NoLinkNoCrash st → NoLinkNoCrash (l.foldl g st) := by
+  intro l
+  induction l with
+  | nil => intro st h; exact h
+  | cons x l ih => intro st h; simp only [List.foldl_cons]; exact ih _ (hg st x h)
+
+theorem taskClean_nlnc (tbl : Table) (dry : Bool) (t : Name) (st : World × List Ev) (h : NoLinkNoCrash st) :
+    NoLinkNoCrash (taskClean tbl dry t st) := by
+  unfold taskClean
+  cases tbl[t]? with
+  | none => exact h
+  | some tk =>
+    simp only
+    cases tk.kind with
+    | nothing => exact h
+    | targets => exact foldl_nlnc _ (fun st p hh => rmTarget_nlnc dry t st p hh) _ _ h
+    | actions as => exact runActs_nlnc dry t as 0 st h
+
+theorem cleanTasks_nlnc (tbl : Table) (dry forget : Bool) (order : List Name) (w : World) (h : w.links = []) :
+    NoLinkNoCrash (cleanTasks tbl dry forget order w) := by
+  unfold cleanTasks
+  refine foldl_nlnc _ ?_ order (w, []) ⟨h, fun e he => by simp at he⟩
+  intro st t hh
+  have := taskClean_nlnc tbl dry t st hh
+  unfold cleanOne
+  simp only
+  split
+  · exact ⟨this.1, this.2⟩
+  · exact this
 
 end DoitModel.Clean
